@@ -819,6 +819,10 @@ def gen_algo_case(seed, idx, algo=None, force=None, monitors_on=True, T=None, ho
     delta = Delta()
     ctx = {"case": case, "ad": ad, "meta": meta, "rewards": [], "points": [], "pulled": [], "box": box, "kind": kind, "K": K}
     user_box = [list(iv) for iv in box]
+    if all(float(x).is_integer() and abs(x) < 2 ** 50 for iv in box for x in iv) and random.Random(f"intbox-{seed}-{idx}-{ad.name}").random() < 0.4:
+        # the domain as users (and the library's own tests) write it: integer bounds
+        user_box = [[int(iv[0]), int(iv[1])] for iv in box]
+        case.tags["domain=integer-bounds"] += 1
     with RngCtl(drnd, qmode=qmode) as rng:
         ctx["rng"] = rng
         pcls = make_partition_class(kind, K, rng)
